@@ -604,7 +604,7 @@ fn history(acc: &mut crate::rt::Acc, r: &mut Rng, steps: u64, thorough: bool) {
 }
 
 pub fn run(ctx: &Ctx) -> (CheckMeta, crate::rt::Acc) {
-    let n = ctx.tier.pick(3, 125);
+    let n = ctx.tier.pick(30, 1000);
     let steps = ctx.tier.pick(120, 300);
     let thorough = ctx.tier == Tier::Thorough;
     let ph = hash_str("C19");
